@@ -38,11 +38,11 @@ def gen_cases(fam, tier):
         order = fam.ancestors_ordered(ename)
         if len(order) > 1:
             redecl = set((d.redeclares, d.name) for n in order for d in ents[n].derived if d.redeclares)
-            defaults = {n: ['*' if (n, a.name) in redecl else sp.lits.alts(a.type, short=True)[0] for a in ents[n].attrs] for n in order}
+            defaults = {n: ['*' if (n, a.name) in redecl else sp.lits.alts(a.type, short=True)[0] for a in ents[n].attrs if not a.redeclares] for n in order}
             mk = lambda vals: '#10=(%s);' % ''.join('%s(%s)' % (n.upper(), ','.join(vals[n])) for n in sorted(order))
             yield {'ent': ename, 'form': 'none', 'attr': -1, 'text': sp.file([mk(defaults)]), 'complex': True}
             for n in order:
-                for k, a in enumerate(ents[n].attrs):
+                for k, a in enumerate([x for x in ents[n].attrs if not x.redeclares]):
                     if (n, a.name) in redecl:
                         continue
                     for form, lit in (('$', '$'), ('$+blank+comment', '$ /* not set */ ')):
@@ -54,7 +54,7 @@ def gen_cases(fam, tier):
 def attr_of(fam, case):
     ents = fam.tmap()[1]
     if case['complex']:
-        return ents[case['part']].attrs[case['attr']]
+        return [x for x in ents[case['part']].attrs if not x.redeclares][case['attr']]
     return fam.p21_attrs(case['ent'])[case['attr']][1]
 
 
@@ -139,7 +139,7 @@ def main():
         sys.exit(replay(args.replay))
     chk = common.Check(PID, args.tier, deadline_s=args.deadline)
     chk.rule = ('strict in {off,on} x every entity of families K/I x every attribute position (own, inherited, in a complex part) replaced by `$` and by '
-                'the empty parameter; state = (file, mode), transition = one read(+write) on the real STEPfile; oracle = the table in the property')
+                'the empty parameter, each also in 8 lexical dresses (blank, comment, newline before/after the marker); state = (file, mode), transition = one read(+write) on the real STEPfile; oracle = the table in the property')
     chk.assumptions = ['defined types of INTEGER/REAL/NUMBER/STRING are judged like their base type', 'p21ref/smodel correct']
     for fam in fams():
         lib = build.schema_lib(fam.express(), 'plain')
